@@ -222,7 +222,7 @@ let handle (line : string) : string =
   | "openclass" ->
     (match split_on ' ' rest with
      | [l; v] -> let c = int_of_n (spec_open_class (n_of_string l) (n_of_string v)) in
-       let s = List.nth ["ok"; "version"; "format"; "version-or-format"] c in
+       let s = List.nth ["ok"; "version"; "format"; "version-or-format"; "ok-or-format"] c in
        "S:" ^ s ^ "\tM:" ^ s
      | _ -> "BADCASE")
   | "encode" ->
